@@ -1,4 +1,5 @@
 import Pcore.Proofs.LatSoundMain
+import Pcore.Proofs.LatFam
 import Pcore.Proofs.DescribeWF
 import Pcore.Proofs.DescribeSig
 set_option linter.unusedSimpArgs false
@@ -70,6 +71,34 @@ theorem C19_assert_sound (cfg : Cfg) (hl : ∀ s, (cfg.lower s).length = s.lengt
     (h : descEmpty cfg false a b = true) (hb : assertOk cfg false b v = true) : assertOk cfg false a v = true := by
   have h' : asg cfg false a b = true := by simpa [descEmpty, hasTypeRef] using h
   exact sound_all cfg false hl (a.w + b.w) a b v (Nat.le_refl _) ⟨fa, fb, wa, wb, us, ok, tv⟩ h' hb
+
+/-- full statement: the type-mismatch error an assertion raises always has something to say (the description of the expected type against
+    the detailed type of the value is not empty) -/
+def C19_assert_described (cfg : Cfg) (sfh : Bool) : Prop :=
+  ∀ (t : Ty) (v : Val), Ty.WF cfg t → v.OK → assertOk cfg sfh t v = false → descEmpty cfg sfh t (dtype cfg sfh v) = false
+
+/-- PROVED part (from C04_accepts_sound: rule off, fragment types, values without type values and without empty-string keys) -/
+theorem C19_assert_described_partial (cfg : Cfg) (hl : ∀ s, (cfg.lower s).length = s.length) (t : Ty) (v : Val)
+    (ft : t.Frag false) (wt : Ty.WF cfg t) (ok : v.OK) (tv : Val.TyOK cfg v)
+    (nt : Val.AllTyp (fun _ => False) v) (ne : Val.NoEmptyKey v)
+    (h : assertOk cfg false t v = false) : descEmpty cfg false t (dtype cfg false v) = false := by
+  cases hd : descEmpty cfg false t (dtype cfg false v) with
+  | false => rfl
+  | true =>
+    have h' : asg cfg false t (dtype cfg false v) = true := by simpa [descEmpty, hasTypeRef] using hd
+    -- the third law of C04 (`C04_accepts_sound`), re-derived from the same lemmas
+    have g := dtype_good cfg hl v.w v (Nat.le_refl _) ok tv nt ne
+    have hd := dtype_structy cfg false v.w v (Nat.le_refl _) (dtype_fam cfg false hl v.w v (Nat.le_refl _) ok tv nt ne)
+    have := sound_all cfg false hl _ t _ v (Nat.le_refl _) ⟨ft, g.1, wt, g.2.1, g.2.2, ok, tv⟩ h' hd
+    simp [assertOk, this] at h
+
+/-- the known finding C19-assert-empty-description: Iterable accepts the Binary type, no Binary value is an Iterable instance, so the
+    assertion raises an error whose description is empty -/
+theorem C19_assert_described_fails_iterable_binary :
+    ¬ C19_assert_described { rxMatch := fun _ _ => false, lower := id } true := by
+  intro h
+  have := h (.iterable (.int ⟨0, 255⟩)) (.binary [1, 2]) (by simp [Ty.WF]) (Val.OK.binary _) (by simp [assertOk, inst, elemType])
+  simp [descEmpty, hasTypeRef, dtype, ptype, asg, asgRecv, sameNullary, Rng.sub] at this
 
 /-! non-vacuity -/
 example (cfg : Cfg) : descEmpty cfg true (.variant [.str, .int Rng.all]) (.int ⟨1, 2⟩) = true := by
